@@ -176,6 +176,39 @@ def icp_iter(env):
     env.eq('the iteration fits the current points to their nearest targets', b0, T.stack([tgt[0][[1, 0]], tgt[1][[0, 1]]], 0) if env.sym else T.stack([tgt[0][[1, 0]], tgt[1][[0, 1]]], 0))
 
 
+@obligation('C17.ICP.initial_transform', functions=['pypose.module.icp:ICP.forward', 'pypose.module.icp:ICP.__init__'], max_paths=8,
+            note='knn and svdtf by contract; a one-iteration controller')
+def icp_init(env):
+    """which initial transform the iteration starts from: the one given to the call; else the one given to the constructor; else none (the
+    documented precedence) - observed as the points the first nearest-neighbour query is made with"""
+    icp = env.load('pypose.module.icp'); pp = env.load('pypose'); op = env.load(OPS); T = env.T
+    N = 2
+    src = T.stack([env.vec(f's{i}', 3, regimes=('generic',)) for i in range(N)], 0).reshape(1, N, 3)
+    tgt = T.stack([env.vec(f't{i}', 3, regimes=('generic',)) for i in range(N)], 0).reshape(1, N, 3)
+    A_ = lie(pp, 'SE3', group_elem(env, 'SE3', 'A', qregimes=('generic',)).reshape(1, 7)); B_ = lie(pp, 'SE3', group_elem(env, 'SE3', 'B', qregimes=('generic',)).reshape(1, 7))
+    dist = T.stack([env.scalar(f'd{i}', positive=True, regimes=('generic',)) for i in range(N)], 0).reshape(1, N, 1)
+    idx = T.tensor([[[1], [0]]]) if env.sym else T.tensor([[[1], [0]]], dtype=T.int64)
+    first = []
+    def knn(a, b, k=1, ord=2, dim=-1):
+        first.append(a); return dist, idx
+    class Tr:
+        def unsqueeze(self, d): return self
+        def __matmul__(self, o): return o
+    env.stub(icp, 'knn', knn); env.stub(icp, 'svdtf', lambda a, b: Tr())
+    class OneStep:
+        def __init__(self): self.k = 0
+        def reset(self): self.k = 0
+        def continual(self): return self.k == 0
+        def step(self, loss): self.k += 1
+    act = lambda X: T.stack([op.SE3_Act.forward(raw(X)[0], src[0, i]) for i in range(N)], 0).reshape(1, N, 3)
+    for tag, ctor, call, want in (('call and constructor both give one: the call wins', A_, B_, act(B_)), ('constructor only', A_, None, act(A_)),
+                                  ('call only', None, B_, act(B_)), ('neither', None, None, src)):
+        del first[:]
+        m = icp.ICP(init=ctor, stepper=OneStep())
+        m(src, tgt, init=call) if call is not None else m(src, tgt)
+        env.eq(f'{tag}', first[0], want)
+
+
 @bounded('C17.exact_recovery', functions=[f'{GEO}:svdtf', f'{GEO}:svdstf'])
 def exact(rng, tier):
     """exact correspondences under a true transform are reproduced (real code, float64); planar / collinear / minimal sets"""
@@ -194,6 +227,18 @@ def exact(rng, tier):
         err = float((Y.Act(src) - tgt).abs().max())
         nontrivial += 1
         if err > 1e-8: fails.append(dict(clause='svdtf_exact', signature=f'n={n},{kind}', err=err))
+        # the alignment does not depend on the autograd state of its inputs: clouds that require grad (an alignment inside a training loop)
+        # get the same transform, for small clouds too (extent 0.02)
+        if k % 4 == 0 and kind == 'generic':
+            for ext in (1.0, 0.02):
+                sg = (src * ext).clone().requires_grad_(True); tg = X.Act(src * ext).detach()
+                Yg = pp.svdtf(sg, tg); Yp = pp.svdtf((src * ext), tg)
+                dg = float((Yg.tensor().detach() - Yp.tensor()).abs().max()); eg = float((Yg.detach().Act(src * ext) - tg).abs().max())
+                if dg > 1e-9 or eg > 1e-8 * ext:
+                    fails.append(dict(clause='svdtf_same_result_when_inputs_require_grad', signature=f'n={n},extent={ext}', difference=dg, residual=eg))
+                Zg = pp.svdstf(sg, tg); Zp = pp.svdstf((src * ext), tg)
+                if float((Zg.tensor().detach() - Zp.tensor()).abs().max()) > 1e-9:
+                    fails.append(dict(clause='svdstf_same_result_when_inputs_require_grad', signature=f'n={n},extent={ext}'))
         tgt2 = X.Act(s * src)
         try:
             Z = pp.svdstf(src, tgt2)
